@@ -100,6 +100,20 @@ class MyRoot(reg32.AddrMap, word_count=4):
     ctrl: reg32.MemWord[0x0C]
     stat: reg32.MemWord[0x10]
 ''', {0: "ramword", 1: "ramword", 2: "ramword", 3: "memword", 4: "memword"}),
+    # a power-of-two sized range at an offset that is not a multiple of its size, between two registers
+    "unaligned_window": ('''class MyRoot(reg32.AddrMap, word_count=8):
+    a: reg32.MemWord[0x00]
+    mem: reg32.Memory[0x08:0x18]
+    c: reg32.MemWord[0x1C]
+''', {0: "memword", 2: "ramword", 3: "ramword", 4: "ramword", 5: "ramword", 7: "memword"}),
+    # memory whose byte lanes are written individually
+    "split_words": ('''class MyRoot(reg32.AddrMap, word_count=4):
+    mem: reg32.Memory[0x00:0x08]
+    c: reg32.MemWord[0x08]
+
+    def _config_(self):
+        self.mem._config_(mask_mode=reg32.Memory.MaskMode.SPLIT_WORDS)
+''', {0: "ramword", 1: "ramword", 2: "memword"}),
     # two levels of RegFile nesting at non-zero offsets (global offset = sum of all enclosing offsets)
     "nested2": ('''class Inner2(reg32.RegFile, word_count=2):
     m: reg32.MemWord[4]
@@ -115,6 +129,10 @@ class MyRoot(reg32.AddrMap, word_count=32):
     o: Outer[64]
 ''', {0: "memword", 16: "memword", 21: "memword"}),
 }
+
+
+# maps whose documented precondition is that the master only uses word-aligned addresses
+ALIGNED_ONLY = {"split_words"}
 
 
 def design(map_name):
@@ -140,8 +158,9 @@ def merge_bytes(old, new, strb, lo_byte, nbytes):
 
 
 class AxiMonitor(Monitor):
-    def __init__(self, model, no_reset=False):
+    def __init__(self, model, no_reset=False, aligned=False):
         super().__init__()
+        self.aligned = aligned
         self.model = model  # word address -> kind
         self.regs = {a: (k[1] if isinstance(k, tuple) else 0) for a, k in model.items()}  # upper16 / low16: 16 bit payload; memword: 32 bit payload
         self.prev_out = {n: 0 for n in OUTPUTS}
@@ -164,6 +183,9 @@ class AxiMonitor(Monitor):
     def step(self, i, ins, outs):
         po = self.prev_out
         rst = bit(ins["reset"])
+        if self.aligned:
+            self.assume(D.b_implies(bit(ins["axi_awvalid"]), D.v_eq(D.v_extract(ins["axi_awaddr"], 1, 0, AW), 0, 2)))
+            self.assume(D.b_implies(bit(ins["axi_arvalid"]), D.v_eq(D.v_extract(ins["axi_araddr"], 1, 0, AW), 0, 2)))
         if self.no_reset:
             self.assume(D.b_not(rst))
         # ---------------- master rules: valid held and payload stable until the handshake
@@ -267,8 +289,8 @@ class AxiMonitor(Monitor):
 class ProgressMonitor(AxiMonitor):
     """with an always-valid, always-ready master a write followed by reads must complete within the horizon"""
 
-    def __init__(self, model, K):
-        super().__init__(model, no_reset=True)
+    def __init__(self, model, K, aligned=False):
+        super().__init__(model, no_reset=True, aligned=aligned)
         self.K = K
         self.seen_b = False
         self.seen_r = False
@@ -306,7 +328,8 @@ def run(tier: str) -> int:
                 VS.Sim(lib)
             except Illegal as e:
                 return {"status": "illegal", "why": str(e), "source": src, "vhdl": text}
-            kk, mk = (K, lambda: AxiMonitor(model)) if kind == "protocol+data" else (10, lambda: ProgressMonitor(model, 10))
+            al = name in ALIGNED_ONLY
+            kk, mk = (K, lambda: AxiMonitor(model, aligned=al)) if kind == "protocol+data" else (10, lambda: ProgressMonitor(model, 10, aligned=al))
             status, info = run_bmc(rw.stats, lib, INPUTS, OUTPUTS, kk, mk, timeout_ms=900000)
             return {"status": status, "info": info if isinstance(info, (dict, str)) else str(info), "kk": kk, "source": src, "vhdl": text if status == "violation" else None,
                     "validated": rw.stats.extra.get("traces_validated", 0)}
